@@ -20,7 +20,8 @@ func init() {
 			"R4 fixed processing order — findFiles keys its de-duplication map by the absolute path and sorts by it with a strict less; R5 cross-file state of mainCmd.Run — no local variable or pointer-typed value created outside the per-file loop is written or handed to a mutating call inside it, other than the position table (token.FileSet, append-only and locked), the error accumulators, the logger and the runner. " +
 			"R1 also covers append: a slice held by the compiled program (or a re-slice of it such as m.results[:0]) is never appended to while matching/replacing — with spare capacity append writes into the shared backing array. " +
 			"NOT decided: data races inside third-party code, position-base effects of the shared FileSet on printing, concurrent Apply calls beyond R1 (absence of writes to shared state)." +
-			" R5 also: runner fields written while files are processed are never read there.",
+			" R5 also: runner fields written while files are processed are never read there." +
+			" R1 also: the shared token.FileSet only grows — no RemoveFile / Read anywhere in the module; writes through sync/atomic, sync.Once and sync.Map count as writes. R6 bytes kept for a file are not a window into a re-used buffer (C03-R12).",
 		Trusted:     append([]string{"token.FileSet is internally locked and append-only", "the go-intervals coroutine is deterministic"}, commonTrusted...),
 		Assumptions: commonAssumptions,
 	})
@@ -37,6 +38,7 @@ func runC14(r *an.Run) {
 	if m := buildRunModel(r); m != nil {
 		crossFileState(r, m, "R5-cross-file-state")
 	}
+	noTransientBufferRetained(r, "R6-kept-bytes-are-not-a-window-into-a-reused-buffer")
 }
 
 func c14FreshState(r *an.Run) {
